@@ -18,6 +18,13 @@ against what those statements say now:
 
 A shape that is not recognised degrades to the pinned value (reported as `extraction_degraded`) and the
 sequences are then carried by the correspondence run alone.
+
+Round 3 — facts about histogram *objects* (`Generated/DistogramObj.lean`):
+
+* `updBounds` — the statements of `update` that set `h.min` / `h.max` after an insertion, translated **with their
+  control flow** (a sequence of `if`s, `elif` / `else` chains, nested): a little state program over `(min, max)`;
+* `addTarget` — what `Distogram.__add__` merges the right operand into: the left operand itself (the sum *is* the left
+  operand), a shallow copy of it (`copy.copy(self)`: a second object that shares the bin list) or a deep copy.
 """
 import ast
 
@@ -151,9 +158,322 @@ def load_bound(dist, which):
     raise KeyError("load: %s.%s = %s" % (obj, which, last[:40]))
 
 
+# --------------------------------------------------------------------------- histogram objects (round 3)
+
+CMP = {ast.Lt: "<", ast.LtE: "≤", ast.Gt: ">", ast.GtE: "≥"}
+FIELD_IDX = {"min": "1", "max": "2"}
+PIN_UPD_BOUNDS = ("(let s := (if (noneOr s.1 (fun m => decide (m > value))) then (let s := ((some value), s.2); s) else s); "
+                  "(let s := (if (noneOr s.2 (fun m => decide (m < value))) then (let s := (s.1, (some value)); s) else s); s))")
+PIN_ADD_BOUNDS = "(let s := (if (o.1).isSome then (let s := ((pyMin s.1 o.1), s.2); (let s := (s.1, (pyMax s.2 o.2)); s)) else s); s)"
+PIN_BULK_BOUNDS = ("(let s := (if (s.1).isNone then (let s := ((some lo), s.2); (let s := (s.1, (some hi)); s)) "
+                   "else (let s := ((pyMin s.1 (some lo)), s.2); (let s := (s.1, (pyMax s.2 (some hi))); s))); s)")
+
+
+class BoundsProg:
+    """Statements on the bounds of a histogram -> a Lean term of type `Option K × Option K` (the state `s = (min, max)`).
+
+    Restricted grammar — anything else raises KeyError and the item degrades to its pinned text:
+      statements   `<state>.min = E`, `<state>.max = E`, `if / elif / else` of such blocks, `pass`
+      E            a bound (`<state>.min`, `<other>.max`, ...), an atom of `atoms` (a number: `value`, `values.min()`),
+                   `min(E, E)`, `max(E, E)` (Python's: `None` operands are a TypeError -> `none`)
+      tests        `B is None`, `B is not None`, `(B is None) or (B <cmp> atom)`, `(B is not None) and (B <cmp> atom)`,
+                   a bare comparison once the same bound was tested earlier in the `and` / `or`, truthiness of a bound
+                   (`None` and zero are falsy), `and` / `or` / `not` of tests."""
+
+    def __init__(self, state, others, atoms):
+        self.state, self.others, self.atoms = set(state), dict(others), dict(atoms)
+
+    def bound(self, n):
+        """A bound expression -> Lean term of type Option K, or None."""
+        if isinstance(n, ast.Attribute) and isinstance(n.value, ast.Name) and n.attr in FIELD_IDX:
+            if n.value.id in self.state:
+                return "s.%s" % FIELD_IDX[n.attr]
+            if n.value.id in self.others:
+                return "%s.%s" % (self.others[n.value.id], FIELD_IDX[n.attr])
+        return None
+
+    def atom(self, n):
+        return self.atoms.get(ast.unparse(n))
+
+    def expr(self, n):
+        b = self.bound(n)
+        if b:
+            return b
+        a = self.atom(n)
+        if a:
+            return "(some %s)" % a
+        if isinstance(n, ast.Call) and isinstance(n.func, ast.Name) and n.func.id in ("min", "max") and len(n.args) == 2 and not n.keywords:
+            return "(py%s %s %s)" % (n.func.id.capitalize(), self.expr(n.args[0]), self.expr(n.args[1]))
+        raise KeyError("bound set to %s" % ast.unparse(n)[:40])
+
+    def cmp_of(self, n, b):
+        """`<b> <cmp> atom` or `atom <cmp> <b>` as `fun m => decide (...)`."""
+        if not (isinstance(n, ast.Compare) and len(n.ops) == 1 and type(n.ops[0]) in CMP):
+            return None
+        l, r = n.left, n.comparators[0]
+        op = CMP[type(n.ops[0])]
+        if self.bound(l) == b and self.atom(r):
+            return "(fun m => decide (m %s %s))" % (op, self.atom(r))
+        if self.bound(r) == b and self.atom(l):
+            return "(fun m => decide (%s %s m))" % (self.atom(l), op)
+        return None
+
+    def bounds_in(self, n):
+        return {self.bound(x) for x in ast.walk(n) if self.bound(x)}
+
+    def test(self, t):
+        def is_none(n, neg):
+            if isinstance(n, ast.Compare) and len(n.ops) == 1 and isinstance(n.ops[0], ast.IsNot if neg else ast.Is) \
+                    and isinstance(n.comparators[0], ast.Constant) and n.comparators[0].value is None:
+                return self.bound(n.left)
+            return None
+
+        b = is_none(t, False)
+        if b:
+            return "(%s).isNone" % b
+        b = is_none(t, True)
+        if b:
+            return "(%s).isSome" % b
+        if isinstance(t, ast.BoolOp) and len(t.values) == 2:
+            for neg, fn in ((False, "noneOr"), (True, "someAnd")):
+                if isinstance(t.op, ast.And if neg else ast.Or):
+                    b = is_none(t.values[0], neg)
+                    c = self.cmp_of(t.values[1], b) if b else None
+                    if c:
+                        return "(%s %s %s)" % (fn, b, c)
+        if self.bound(t):
+            return "(truthy %s)" % self.bound(t)  # truthiness of a bound: `None` and zero are falsy
+        if isinstance(t, ast.BoolOp):
+            j = " && " if isinstance(t.op, ast.And) else " || "
+            parts = [self.test(t.values[0])]
+            guarded = self.bounds_in(t.values[0])
+            for v in t.values[1:]:
+                # a bare comparison is only evaluated after a test on the same bound short-circuited `None` away
+                hit = next(((g, self.cmp_of(v, g)) for g in sorted(guarded) if self.cmp_of(v, g)), None)
+                if hit:
+                    parts.append("(someAnd %s %s)" % hit)
+                else:
+                    parts.append(self.test(v))
+                    guarded |= self.bounds_in(v)
+            return "(" + j.join(parts) + ")"
+        if isinstance(t, ast.UnaryOp) and isinstance(t.op, ast.Not):
+            return "(!%s)" % self.test(t.operand)
+        raise KeyError("bounds test %s" % ast.unparse(t)[:50])
+
+    def block(self, stmts, depth=0):
+        if depth > 6:
+            raise KeyError("bounds statements nested too deeply")
+        lines = []
+        for st in stmts:
+            if isinstance(st, ast.Pass):
+                continue
+            if isinstance(st, ast.Assign) and len(st.targets) == 1 and self.bound(st.targets[0]) in ("s.1", "s.2"):
+                e = self.expr(st.value)
+                lines.append("(%s, s.2)" % e if self.bound(st.targets[0]) == "s.1" else "(s.1, %s)" % e)
+            elif isinstance(st, ast.If):
+                lines.append("(if %s then %s else %s)" % (self.test(st.test), self.block(st.body, depth + 1), self.block(st.orelse, depth + 1)))
+            else:
+                raise KeyError("bounds statement %s" % type(st).__name__)
+        out = "s"
+        for ln in reversed(lines):
+            out = "(let s := %s; %s)" % (ln, out)
+        return out
+
+    def touches(self, st):
+        """Does the statement assign a bound of the state?"""
+        for n in ast.walk(st):
+            if isinstance(n, (ast.Assign, ast.AugAssign, ast.AnnAssign)):
+                for t in (n.targets if isinstance(n, ast.Assign) else [n.target]):
+                    if self.bound(t) in ("s.1", "s.2"):
+                        return True
+        return False
+
+    def adjacent(self, body, what):
+        idx = [i for i, st in enumerate(body) if self.touches(st)]
+        if not idx:
+            raise KeyError("%s: no statement sets the bounds" % what)
+        if idx != list(range(idx[0], idx[-1] + 1)):
+            raise KeyError("%s: the bounds statements are not adjacent" % what)
+        return [body[i] for i in idx]
+
+
+def upd_bounds(dist):
+    """The top-level statements of `update(h, value, count)` that assign `h.min` / `h.max`, as one state program."""
+    f = find_function(dist.tree, "update")
+    params = [a.arg for a in f.args.args]
+    if params[:2] != ["h", "value"]:
+        raise KeyError("update(h, value, ...)")
+    bp = BoundsProg({"h"}, {}, {"value": "value"})
+    # `value = _caster(value)` precedes them and nothing re-binds `value` or `h` in between
+    return bp.block(bp.adjacent(f.body, "update"))
+
+
+def add_bounds(dist):
+    """The statements of `Distogram.__add__` that set the bounds of the sum after the merge.  `self.min` / `self.max`
+    denote the sum's bounds only when `merge` received `self` (the sum is the left operand, updated in place)."""
+    f = find_function(dist.tree, "__add__", "Distogram")
+    params = [a.arg for a in f.args.args]
+    if len(params) != 2 or params[0] != "self":
+        raise KeyError("__add__(self, operand)")
+    res = [st for st in f.body if isinstance(st, ast.Assign) and len(st.targets) == 1 and isinstance(st.targets[0], ast.Name)
+           and isinstance(st.value, ast.Call) and ast.unparse(st.value.func) == "merge"]
+    if len(res) != 1:
+        raise KeyError("__add__: <sum> = merge(...)")
+    name = res[0].targets[0].id
+    state = {name} | ({"self"} if ast.unparse(res[0].value.args[0]) == "self" else set())
+    bp = BoundsProg(state, {params[1]: "o"}, {})
+    after = f.body[f.body.index(res[0]) + 1:]
+    if not after or not isinstance(after[-1], ast.Return) or ast.unparse(after[-1].value) != name:
+        raise KeyError("__add__: return <sum>")
+    return bp.block(bp.adjacent(after[:-1], "__add__"))
+
+
+def bulk_bounds(dist):
+    """The statements of `Distogram.bulkload(values)` that set the bounds once the bins are in: `values.min()` / `.max()`."""
+    f = find_function(dist.tree, "bulkload", "Distogram")
+    params = [a.arg for a in f.args.args]
+    if params != ["self", "values"]:
+        raise KeyError("bulkload(self, values)")
+    bp = BoundsProg({"self"}, {}, {"values.min()": "lo", "values.max()": "hi"})
+    return bp.block(bp.adjacent(f.body, "bulkload"))
+
+
+def add_target(dist):
+    """What `Distogram.__add__` hands to `merge` as the histogram that receives the right operand's bins."""
+    f = find_function(dist.tree, "__add__", "Distogram")
+    params = [a.arg for a in f.args.args]
+    if len(params) != 2 or params[0] != "self":
+        raise KeyError("__add__(self, operand)")
+    calls = [n for n in ast.walk(f) if isinstance(n, ast.Call) and ast.unparse(n.func) == "merge" and len(n.args) == 2 and not n.keywords]
+    if len(calls) != 1 or ast.unparse(calls[0].args[1]) != params[1]:
+        raise KeyError("__add__: one merge(<left>, operand)")
+    left = calls[0].args[0]
+    names = {}
+    for st in f.body:
+        if isinstance(st, ast.Assign) and len(st.targets) == 1 and isinstance(st.targets[0], ast.Name):
+            names[st.targets[0].id] = st.value
+    if isinstance(left, ast.Name) and left.id != "self" and left.id in names:
+        nm = left.id
+        # the copy must reach merge() as it was made: no attribute of it is re-bound in between
+        for n in ast.walk(f):
+            if isinstance(n, (ast.Assign, ast.AugAssign)):
+                for t in (n.targets if isinstance(n, ast.Assign) else [n.target]):
+                    if isinstance(t, ast.Attribute) and isinstance(t.value, ast.Name) and t.value.id == nm and n.lineno < calls[0].lineno:
+                        raise KeyError("__add__: %s.%s is set before the merge" % (nm, t.attr))
+        left = names[nm]
+    text = ast.unparse(left).replace(" ", "")
+    if text == "self":
+        return "self"
+    if text in ("copy(self)", "copy.copy(self)", "self.__copy__()"):
+        return "shallowCopy"
+    if text in ("deepcopy(self)", "copy.deepcopy(self)", "self.__deepcopy__({})"):
+        return "deepCopy"
+    raise KeyError("__add__: merge(%s, operand)" % text[:40])
+
+
+def generate_obj(o, dist):
+    import re
+
+    WORDS = {"if", "then", "else", "let", "fun", "decide", "some", "noneOr", "someAnd", "truthy", "pyMin", "pyMax", "s", "s.1", "s.2", "m",
+             "isNone", "isSome"}
+
+    def checked(getter, extra):
+        def g():
+            text = getter()
+            free = set(re.findall(r"[A-Za-z_][A-Za-z0-9_.]*", text)) - WORDS - set(extra)
+            if free:
+                raise KeyError("uses %s" % sorted(free))
+            return text
+        return g
+
+    ub = o.item("distogram.obj.update_bounds", checked(lambda: upd_bounds(dist), ["value"]), PIN_UPD_BOUNDS)
+    ab = o.item("distogram.obj.add_bounds", checked(lambda: add_bounds(dist), ["o", "o.1", "o.2"]), PIN_ADD_BOUNDS)
+    bb = o.item("distogram.obj.bulk_bounds", checked(lambda: bulk_bounds(dist), ["lo", "hi"]), PIN_BULK_BOUNDS)
+    tgt = o.item("distogram.obj.add_target", lambda: add_target(dist), "self")
+    o.files["DistogramObj.lean"] = HEADER + '''/-!
+Facts about histogram *objects* of `orso/profiler/distogram/__init__.py` (harness/extractors/c14.py):
+the statements that set `min` / `max` in `update`, `Distogram.__add__` and `Distogram.bulkload` **with their control
+flow**, and what `Distogram.__add__` merges into.
+-/
+namespace Gen.DistogramObj
+set_option linter.unusedVariables false
+
+/-- What `Distogram.__add__` hands to `merge` as the receiving histogram: the left operand itself (the sum *is* the left
+operand, updated in place), a shallow copy (`copy.copy(self)`: a second object whose `bins` / `diffs` attributes are the
+*same lists*), or a deep copy. -/
+inductive AddTarget where
+  | self
+  | shallowCopy
+  | deepCopy
+  deriving DecidableEq, Repr
+
+/-- `dgram = merge(<this>, operand)` in `Distogram.__add__` -/
+def addTarget : AddTarget := .%s
+
+section
+variable {K : Type} [LT K] [LE K] [DecidableLT K] [DecidableLE K] [OfNat K 0]
+
+/-- Python's truthiness of a bound: `None` and zero are falsy -/
+def truthy (b : Option K) : Bool :=
+  match b with
+  | none => false
+  | some m => !(decide (m ≤ 0) && decide (0 ≤ m))
+
+/-- `(b is None) or test(b)` — Python's `or` does not evaluate the comparison on `None` -/
+def noneOr (b : Option K) (test : K → Bool) : Bool :=
+  match b with
+  | none => true
+  | some m => test m
+
+/-- `(b is not None) and test(b)` -/
+def someAnd (b : Option K) (test : K → Bool) : Bool :=
+  match b with
+  | none => false
+  | some m => test m
+
+/-- Python's `min(a, b)` on bounds: `a` unless `b < a`; a `None` operand is a `TypeError` (`none`) -/
+def pyMin (a b : Option K) : Option K :=
+  match a, b with
+  | some x, some y => some (if y < x then y else x)
+  | _, _ => none
+
+/-- Python's `max(a, b)` on bounds: `a` unless `a < b` -/
+def pyMax (a b : Option K) : Option K :=
+  match a, b with
+  | some x, some y => some (if x < y then y else x)
+  | _, _ => none
+
+/-- The statements of `update(h, value, count)` that set `h.min` / `h.max` once a bin was inserted, with the control flow
+they have in the source now; `s = (h.min, h.max)` on entry, the result is `(h.min, h.max)` afterwards. -/
+def updBounds (mn mx : Option K) (value : K) : Option K × Option K :=
+  let s := (mn, mx)
+  %s
+
+/-- The statements of `Distogram.__add__` that set the bounds of the sum after `merge`; `s` = the bounds `merge` left on
+the sum, `o` = the right operand's. -/
+def addBounds (mn mx omn omx : Option K) : Option K × Option K :=
+  let s := (mn, mx)
+  let o := (omn, omx)
+  %s
+
+/-- The statements of `Distogram.bulkload(values)` that set the bounds once the bins are in; `lo = values.min()`,
+`hi = values.max()`. -/
+def bulkBounds (mn mx : Option K) (lo hi : K) : Option K × Option K :=
+  let s := (mn, mx)
+  %s
+end
+
+end Gen.DistogramObj
+''' % (tgt, ub, ab, bb)
+
+
 def generate(o):
     prof = Src("orso/profiler/profiler.py")
     dist = Src("orso/profiler/distogram/__init__.py")
+    try:
+        generate_obj(o, dist)
+    except Exception as e:  # never let the object facts stop the profile facts
+        o.degraded.append("distogram.obj failed: %s: %s" % (type(e).__name__, str(e)[:100]))
 
     def counter(field):
         f = find_function(prof.tree, "__add__", "ColumnProfile")
